@@ -278,6 +278,10 @@ def c04(ctx):
 
 @check("C05")
 def c05(ctx):
+    # the pause protocol abstracted from the values: PauseShape proved inductive for histories of ANY length
+    run_apalache(ctx, "AnimProto", "IndInv", length=1, init="IndInit")
+    run_apalache(ctx, "AnimProto", "IndInv", length=0, init="Init")
+    run_apalache(ctx, "AnimProto", "IndInv", cinit="CInitStale", length=1, init="IndInit", expect_violation=True)
     return animator_check(ctx, ("vals", "state", "snap", "untouched"), "values / state / internal clock / pause record differ from the specification")
 
 
